@@ -49,7 +49,10 @@ def lower (s : String) : String := String.ofList (s.toList.map Char.toLower)
 /-- Local date-time → seconds of the reading taken as UTC. -/
 def localSeconds (f : List Int) : Option Int :=
   match f with
-  | [y, m, d, h, mi, s] => some (Greg.dayNumber y m d * 86400 + h * 3600 + mi * 60 + s)
+  | [y, m, d, h, mi, s] =>
+    -- (the harness balances the date fields first: `iso_date_balance`)
+    let b := IsoDate.balance y m d
+    some (Greg.dayNumber b.year b.month b.day * 86400 + h * 3600 + mi * 60 + s)
   | _ => none
 
 def handleTzdb (tbl : ZoneTable) (lowerNames : Std.HashMap String Unit) (toks : List String) : Option String :=
@@ -67,6 +70,21 @@ def handleTzdb (tbl : ZoneTable) (lowerNames : Std.HashMap String Unit) (toks : 
     | some z =>
       let xs := z.possible l
       some ("ok " ++ (if xs.isEmpty then "-" else joinSp (xs.map toString)))
+  | "tzdb_locns" :: name :: rest => do
+    -- a local reading with a sub-second part: the same instants as for its whole second, carrying the part along
+    -- (offsets are whole seconds, so the reading's second decides)
+    let f ← ints? (rest.take 6)
+    let l ← localSeconds f
+    match (rest.drop 6) with
+    | [ms, us, ns] => do
+      let ms ← int? ms; let us ← int? us; let ns ← int? ns
+      let sub := ms * 1000000 + us * 1000 + ns
+      match tbl[name]? with
+      | none => some "?unknown-zone"
+      | some z =>
+        let xs := z.possible l
+        some ("ok " ++ (if xs.isEmpty then "-" else joinSp (xs.map (fun x => toString (x * 1000000000 + sub)))))
+    | _ => none
   | ["tzdb_id", h] => do
     let s ← unhex h
     -- exactly the IANA names, case-insensitively
